@@ -27,6 +27,8 @@ STRATA = [
     ("cs-dup-edge", 200, 2500),
     ("cs-deep", 500, 5000),
     ("cs-two", 800, 8000),
+    ("cs-degenerate", 400, 5000),
+    ("cs-tight", 300, 4000),
     ("custom-cols", 400, 5000),
     ("custom-cycles", 300, 4000),
     ("custom-from-cs", 120, 1500),
@@ -111,6 +113,47 @@ def gen(stratum, rng, tier):
         sizes = rng.sample(range(2, W), m)
         dem = [rng.randint(3, 9) for _ in sizes]
         return _cs(W, sizes, dem, rng)
+    if stratum == "cs-degenerate":
+        # demands that are integer combinations of a few patterns: the LP optimum sits at a degenerate vertex
+        # (ties in the ratio test, artificials basic at zero after phase 1, several optimal bases)
+        W = rng.randint(5, 14)
+        m = rng.randint(2, 4)
+        sizes = rng.sample(range(1, W + 1), min(m, W))
+        m = len(sizes)
+        dem = [0] * m
+        for _ in range(rng.randint(1, 3)):
+            left = W
+            pat = [0] * m
+            for i in rng.sample(range(m), m):
+                pat[i] = rng.randint(0, left // sizes[i])
+                left -= pat[i] * sizes[i]
+            t = rng.randint(1, 3)
+            dem = [d + t * a for d, a in zip(dem, pat)]
+        dem = [min(d, 7) for d in dem]
+        if not any(dem):
+            dem[0] = 1
+        return _cs(W, sizes, dem, rng)
+    if stratum == "cs-tight":
+        # pieces a (3 per roll) and b (2 per roll) with a mixed pattern (2,1): under branching bounds on the three
+        # columns the restricted master becomes exactly tight (sum a_ij*hi_j == demand), phase 1 ends in a
+        # degenerate vertex with an artificial still basic -- the shape that exposes an unsafe phase-1/phase-2
+        # hand-over in the bounded master LP
+        while True:
+            W = rng.randint(7, 14)
+            a = rng.randint(2, W // 3)
+            b = rng.randint(W // 3 + 1, W // 2)
+            if W // a == 3 and W // b == 2 and 2 * a + b <= W and a != b:
+                break
+        sizes, dem = [a, b], [rng.randint(3, 14), rng.randint(3, 14)]
+        if rng.random() < 0.3:
+            c3 = rng.choice([s for s in range(2, W + 1) if s not in (a, b)])
+            sizes.append(c3)
+            dem.append(rng.randint(0, 3))
+            dem = [min(d, 12) for d in dem]
+        if rng.random() < 0.5:
+            sizes[0], sizes[1] = sizes[1], sizes[0]
+            dem[0], dem[1] = dem[1], dem[0]
+        return _cs(W, sizes, dem, rng)
     if stratum == "cs-two":
         # two piece types, larger demands: long chains of lower/upper branching bounds on few columns
         W = rng.randint(6, 14)
@@ -148,6 +191,7 @@ def gen(stratum, rng, tier):
         c = _cs(W, sizes, dem, rng)
         c["bp_max_iter"] = 50
         c["bp_max_nodes"] = 60
+        c["budget"] = 40_000_000
         return c
     if stratum == "custom-cols":
         m = rng.randint(2, 4)
@@ -317,9 +361,9 @@ def _solve_all(case, dem, common_kw, universe, fits, opt, obs, label):
             ckw["on_progress"] = _stopper(stop[0], obs)
             ckw["progress_interval"] = stop[1]
             shown["on_progress"] = f"stop at call {stop[0]}, interval {stop[1]}"
-        if kw or stop:
+        if stop or case.get(f"{solver}_kw"):
             obs.event("c17.config.cut-off-run")
-        res = call(obs, fn, list(dem), what=f"solve_{solver}", budget=case.get("budget", 25_000_000), **ckw)
+        res = call(obs, fn, list(dem), what=f"solve_{solver}", budget=case.get("budget", 12_000_000), **ckw)
         if not is_crash(res):
             _judge(res, solver, dem, fits, opt, obs, f"solve_{solver} {label} {shown or ''}")
             it = getattr(res, "iterations", 0) or 0
